@@ -414,5 +414,18 @@ def _w38() -> bool:
         return DictReader.read(td / "f")["b"] == -9
 
 
-KNOWN_CLASSES = {"none_valued_reference": _d13, "power_of_negative_reference": _d38}
-WITNESSES = {"D13": _w13, "D38": _w38}
+def _d46(v: dict) -> bool:
+    """an expression text whose first non-blank character is `;`"""
+    return any(re.search(r'"\s*;[^"\n]*\$', t) for t in v["input"].get("files", {}).values())
+
+
+def _w46() -> bool:
+    from dictIO import DictReader
+    with impl.scratch() as td:
+        (td / "f").write_text('c 5; y 1; z 2; a "; b $c; d "; x "$y"; b $c; d "$z";\n')
+        r = DictReader.read(td / "f")
+        return r.get("x") != 1 or "b" not in r
+
+
+KNOWN_CLASSES = {"none_valued_reference": _d13, "power_of_negative_reference": _d38, "expression_text_starting_with_semicolon": _d46}
+WITNESSES = {"D13": _w13, "D38": _w38, "D46": _w46}
